@@ -553,6 +553,7 @@ pub fn fuzz_targets_of(property: &str) -> Vec<(&'static str, u64)> {
     match property {
         "C06" => vec![("markdown", 1_000_000)],
         "C07" => vec![("cram", 30_000)],
+        "C10" => vec![("update", 600_000)],
         "C11" => vec![("escape", 60_000)],
         _ => vec![],
     }
@@ -576,7 +577,7 @@ pub fn run_fuzz(property: &str, target: &str, runs: u64, seed: u64) -> FuzzOutco
     }
     // a few small valid inputs from the repository next to the empty input
     let seeds: Vec<PathBuf> = match target {
-        "markdown" => list_ext(Path::new("/repo/selftest/cases"), "md", 12),
+        "markdown" | "update" => list_ext(Path::new("/repo/selftest/cases"), "md", 12),
         "cram" => list_ext(Path::new("/repo/selftest/cases"), "t", 12),
         _ => vec![],
     };
